@@ -10,14 +10,14 @@ ENGINE = 'detsched'
 TECHNIQUE = 'runtime monitoring: random subscribe/publish histories against an identity-keyed registry model; delivery threads interleaved by a deterministic cooperative scheduler; exactly-once / no-phantom checker at quiescence'
 RULE = ('random histories of subscribe / publish calls over 2-5 queues (plain deques that are EQUAL BY CONTENT, deques with maxlen, '
         'LockingDeques), 1-4 signals, fifo and lifo subscriptions, repeated subscriptions in every position, subscription by Event and by '
-        'signal number, issued by the harness thread (a fifth of the subscriptions by 2-3 threads at once, for the same queue, signal and kind) while the two real delivery threads are interleaved by detsched (random / PCT); at '
+        'signal number, issued by the harness thread (a fifth of the subscriptions by 2-3 threads at once, for the same queue, signal and kind) (in 30% of the histories the fabric is stopped and started again at random points, without quiescence, so that publications are in flight) while the two real delivery threads are interleaved by detsched (random / PCT); at '
         'quiescence every unique-id publication must be in a queue exactly once per subscription kind that was registered before the '
         'publish call, at most once more per kind registered later (it may still have been in transit), and never in a queue that did '
         'not subscribe to its signal. distinct_nontrivial = distinct (queues, signals, history shape) tuples with a repeated subscription')
 CASES = {'quick': 2500, 'thorough': 150000}
 BUDGET = {'quick': 150, 'thorough': 300}
-REQUIRE = {'histories': 1000, 'repeated_subscriptions': 1000, 'publications_checked': 8000, 'histories_with_equal_queues': 500, 'concurrent_subscriptions_of_one_queue': 1000}
-ASSUME = ['the fabric is running; capacities are large enough for every publication']
+REQUIRE = {'histories': 1000, 'repeated_subscriptions': 1000, 'publications_checked': 8000, 'histories_with_equal_queues': 500, 'concurrent_subscriptions_of_one_queue': 1000, 'fabric_restarts_with_publications_possibly_in_flight': 300}
+ASSUME = ['every publication is made while the fabric runs (it may be stopped and started again in between); capacities are large enough for every publication']
 ANNOUNCE_CASES = True
 
 
@@ -28,12 +28,15 @@ def run_case(ctx, n):
   qtypes = [rng.choice(['deque', 'deque', 'maxlen', 'locking']) for _ in range(nq)]
   ops = []
   uid = 0
+  restarts = rng.random() < 0.3      # histories in which the fabric is stopped and started again while publications may be in flight
   for _ in range(rng.randint(6, 30)):
     if rng.random() < 0.55:
       ops.append(('sub', rng.randrange(nq), rng.choice(sigs), rng.choice(['fifo', 'fifo', 'lifo', None]), rng.random() < 0.3))
       if rng.random() < 0.2:
         # the same subscription made by 2-3 threads AT ONCE (e.g. an object's own thread and the main thread)
         ops[-1] = ops[-1] + (rng.randint(2, 3),)
+    elif restarts and rng.random() < 0.12:
+      ops.append(('restart',))
     else:
       uid += 1
       ops.append(('pub', uid, rng.choice(sigs + ['F_NOBODY']), rng.choice([None, 1, 5, 1000])))
@@ -77,6 +80,12 @@ def run_case(ctx, n):
           if qi in model[k][sig]:
             repeated += 1
           model[k][sig].setdefault(qi, j)
+        elif op[0] == 'restart':
+          # stop() and start() back to back, no quiescence before: publications still waiting in the fabric (they were made
+          # while it ran) must be delivered once it runs again - exactly once, like all others
+          fabric.stop()
+          fabric.start()
+          ctx.count('fabric_restarts_with_publications_possibly_in_flight')
         else:
           _, u, sig, prio = op
           pubs[u] = (sig, j)
